@@ -11,7 +11,9 @@ RULE = (
     "workers (REP) on the back and a raw sink on the capture. EXHAUSTIVE: 1..2 clients x 1..2 workers x every arrival "
     "pattern of 3 events over {client i sends a request, worker j sends a reply} INCLUDING both sides ready in the same "
     "poll (events revealed before one poll) and separately (one poll per event) x 3 payload shapes; seeded longer "
-    "schedules with 3 clients/workers and segmentation. After every poll the wire of every connection is read (the "
+    "schedules with 3 clients/workers and segmentation; chain-reconnect: a client connects again under its configured identity while "
+    "the old connection is still registered (open, or closed but not yet polled) and makes a request — forwarded under its "
+    "identity, answered on the NEW connection, nothing on the old one. After every poll the wire of every connection is read (the "
     "capture's as a sorted set of messages: its order across directions is select!'s random pick). Non-trivial: at least "
     "one message forwarded in each direction. Spec oracle: per direction the forwarded messages are exactly the received "
     "ones, unchanged (client identity prefixed by ROUTER on the way in, stripped on the way out), in order; the capture "
@@ -84,9 +86,59 @@ def build(nc, nw, events, shape, cap, together, n, tag, slow_cap=None):
     return c
 
 
+def reconnect_case(variant, shape, n):
+    """the chain while a client RECONNECTS under its configured identity before the proxy's ROUTER has seen the old
+    connection end (`open`: the old connection is simply still there; `eof`: it has closed but nothing polled it yet):
+    requests read from the new connection are answered on the new connection, nothing goes to the old one"""
+    sc = wg.Script()
+    sc.sock(1, "ROUTER")
+    sc.sock(2, "DEALER")
+    sc.attach(1, 1, "REQ", b"c1")
+    sc.attach(2, 11, "REP", b"w1")
+    g = sc.fut()
+    sc.add(f"attach {g} 1 5")                 # the reconnecting client's handshake future, polled later
+    for p in (1, 11):
+        sc.add(f"wire {p}")
+    f = sc.fut()
+    sc.add(f"proxy {f} 1 2", f"poll {f}")
+    sc.reveal_msg(1, [b"", b"q1"] + shape)
+    sc.add(f"poll {f}", "wire 11")
+    sc.reveal_msg(11, [b"c1", b"", b"r1"] + shape)
+    sc.add(f"poll {f}", "wire 1")
+    if variant == "eof":
+        sc.add("eof 1")
+    sc.add(f"reveal 5 {wg.hx(wg.G + zmtp.ready('REQ', b'c1'))}", f"poll {g}", "wire 5")
+    sc.reveal_msg(5, [b"", b"q2"] + shape)
+    sc.add(f"poll {f}", "wire 11")
+    sc.reveal_msg(11, [b"c1", b"", b"r2"] + shape)
+    sc.add(f"poll {f}", f"poll {f}", "wire 1", "wire 5")
+    c = sc.case(f"chain-reconnect-{variant}#{n}", ["chain-reconnect"])
+    c.expect = ("reconnect", [b"", b"r2"] + shape, [b"c1", b"", b"q2"] + shape)
+    return c
+
+
+def reconnect_oracle(case, lines):
+    _, reply, fwd = case.expect
+    res = list(zip(case.ops, lines[1:]))
+    w1 = [l for op, l in res if op == "wire 1"][-1]
+    w5 = [l for op, l in res if op == "wire 5"][-1]
+    w11 = [l for op, l in res if op == "wire 11"][-1]
+    if w11 != "wire " + wg.show_wire([fwd]):
+        return f"the request of the reconnected client was not forwarded verbatim under its identity: {w11[:100]}"
+    if w1 != "wire .":
+        return f"the reply to the request made on the NEW connection was written to the OLD connection of that identity: {w1[:100]}"
+    if w5 != "wire " + wg.show_wire([reply]):
+        return f"the client that made the request did not get its reply on its connection: {w5[:100]} (want {wg.show_wire([reply])[:60]})"
+    return None
+
+
 def cases(tier, rng):
     out = gen.corpus(ID)
     n = 0
+    for variant in ("open", "eof"):
+        for shape in SHAPES:
+            out.append(reconnect_case(variant, shape, n))
+            n += 1
     for nc, nw in [(1, 1), (2, 1), (1, 2), (2, 2)]:
         evs = [("c", i) for i in range(1, nc + 1)] + [("w", j) for j in range(1, nw + 1)]
         for events in itertools.product(evs, repeat=3):
@@ -144,6 +196,8 @@ def oracle(case, lines):
         return "panic/abort"
     if not case.expect:
         return None
+    if case.expect[0] == "reconnect":
+        return reconnect_oracle(case, lines)
     nc, nw, exp_back, exp_front, all_fwd, has_cap = case.expect
     res = list(zip(case.ops, lines[1:]))
     if any(op.startswith("poll") and l.startswith("ready") for op, l in res[-(nc + nw + 4):]):
@@ -208,6 +262,8 @@ def oracle(case, lines):
 
 def nontrivial(case, lines):
     e = case.expect
+    if e and e[0] == "reconnect":
+        return any(l.startswith("wire ") and l != "wire ." for l in lines)
     return bool(e and e[2] and e[3])
 
 
